@@ -27,7 +27,8 @@ func vAddr(tag string, v6 bool) (netip.Addr, uint64, uint64) {
 	return a, 0, 0xffff00000000 | v
 }
 
-func vLE(ah, al, bh, bl uint64) bool { return ah < bh || (ah == bh && al <= bl) }
+// vLE: 128-bit (hi, lo) order as ONE term (no short-circuit operators: the harness must not fork on its own oracle)
+func vLE(ah, al, bh, bl uint64) bool { return verifrt.Or(ah < bh, verifrt.And(ah == bh, al <= bl)) }
 
 // VerifH_C07_RangeLookup: for up to 3 arbitrary ranges (IPv4, IPv4-mapped or IPv6 bounds) Build fails
 // exactly when two ranges intersect, and otherwise a client address gets the value of the one range that
@@ -80,4 +81,87 @@ func VerifH_C07_RangeLookup_S4() {
 	if ok {
 		verifrt.Assert(v == want, "and it gets that range's label")
 	}
+}
+
+// VerifH_C07_LookupSortedList: Lookup on ANY list that satisfies what Build establishes (ranges sorted by start,
+// start <= end, pairwise disjoint: end_i < start_{i+1}) with n = 1..6 (thorough 4..9) ranges of arbitrary 128-bit
+// bounds, for any 128-bit address: the result is the label of the one range that contains the address (bounds
+// inclusive), or nothing. The list is built directly from symbolic 64-bit halves (no text / byte parsing, no sorting):
+// together with RangeLookup (Build + Lookup, 2 ranges) and BuildPostcondition this covers range files of any order.
+func VerifH_C07_LookupSortedList_S6() {
+	// integer-arithmetic back end (cvc5, bit-vectors solved as integers): chains of 64-bit order comparisons are linear
+	// arithmetic there (0.05 s a query) but take a bit-blaster seconds each
+	verifrt.SymbolicMemory()
+	verifrt.Unwind(80)
+	n := 1 + verifrt.Shard()
+	if verifrt.Thorough() {
+		n = 4 + verifrt.Shard()
+	}
+	l := &List[int]{}
+	for i := 0; i < n; i++ {
+		r := ipRange[int]{v: i + 1, start: Ipv6{verifrt.U64("sh"), verifrt.U64("sl")}, end: Ipv6{verifrt.U64("eh"), verifrt.U64("el")}}
+		verifrt.Assume(vLE(r.start.h, r.start.l, r.end.h, r.end.l))
+		if i > 0 {
+			p := l.e[i-1]
+			verifrt.Assume(verifrt.And(vLE(p.end.h, p.end.l, r.start.h, r.start.l), !verifrt.And(p.end.h == r.start.h, p.end.l == r.start.l)))
+		}
+		l.e = append(l.e, r)
+	}
+	ip := Ipv6{verifrt.U64("ih"), verifrt.U64("il")}
+	v, ok := l.Lookup(ip)
+	verifrt.Reach("lookup")
+	want := 0
+	for i := 0; i < n; i++ {
+		in := verifrt.And(vLE(l.e[i].start.h, l.e[i].start.l, ip.h, ip.l), vLE(ip.h, ip.l, l.e[i].end.h, l.e[i].end.l))
+		want = verifrt.Ite(in, i+1, want)
+	}
+	verifrt.Assert(ok == (want != 0), "a client is in a group iff some range contains its address (bounds inclusive)")
+	if ok {
+		verifrt.Assert(v == want, "and it gets that range's label")
+	}
+}
+
+// VerifH_C07_BuildPostcondition: what Lookup relies on: for 2 (thorough 3) accepted ranges in any order, Build
+// either rejects them (exactly when two intersect) or returns them sorted by start, pairwise disjoint, each with
+// its own label.
+func VerifH_C07_BuildPostcondition() {
+	verifrt.Unwind(60)
+	n := 2
+	if verifrt.Thorough() {
+		n = 3
+	}
+	b := &ListBuilder[int]{}
+	for i := 0; i < n; i++ {
+		r := ipRange[int]{v: i + 1, start: Ipv6{verifrt.U64("sh"), verifrt.U64("sl")}, end: Ipv6{verifrt.U64("eh"), verifrt.U64("el")}}
+		verifrt.Assume(vLE(r.start.h, r.start.l, r.end.h, r.end.l))
+		b.b = append(b.b, r)
+	}
+	in := append([]ipRange[int](nil), b.b...)
+	overlap := false
+	for i := 0; i < n; i++ {
+		for j := i + 1; j < n; j++ {
+			overlap = verifrt.Or(overlap, verifrt.And(vLE(in[i].start.h, in[i].start.l, in[j].end.h, in[j].end.l), vLE(in[j].start.h, in[j].start.l, in[i].end.h, in[i].end.l)))
+		}
+	}
+	l, err := b.Build()
+	if overlap {
+		verifrt.Reach("overlap")
+		verifrt.Assert(err != nil, "intersecting ranges are rejected")
+		return
+	}
+	verifrt.Reach("built")
+	verifrt.Assert(err == nil && l.Len() == n, "disjoint ranges build, none lost")
+	seen := 0
+	for i := 0; i < n; i++ {
+		r := l.e[i]
+		verifrt.Assert(r.v >= 1 && r.v <= n, "labels are the given ones")
+		o := in[r.v-1]
+		verifrt.Assert(r.start == o.start && r.end == o.end, "every range keeps its own bounds and label")
+		seen |= 1 << (r.v - 1)
+		if i > 0 {
+			p := l.e[i-1]
+			verifrt.Assert(verifrt.And(vLE(p.end.h, p.end.l, r.start.h, r.start.l), !verifrt.And(p.end.h == r.start.h, p.end.l == r.start.l)), "sorted by start and pairwise disjoint")
+		}
+	}
+	verifrt.Assert(seen == 1<<n-1, "a permutation of the input")
 }
